@@ -49,7 +49,7 @@ CHECKS = {
    technique="runtime monitoring: id/nonce echo oracle over brokered gRPC connections, hook-point jitter, race detector"),
  "C08": dict(
    category="exploration",
-   text="Runtime monitor: sequences of 20-50 (quick) / up to 200 (thorough) brokered connections established one at a time on a multiplexed in-process gRPC pair; per-side id counters (the same number is live in both directions), accept-first and dial-first, second connections to still-open listeners, slow server factories, an establishment whose retrying dialler is accepted between its timed-out knock and gRPC's reconnect, listeners that are closed (once or twice) and whose id is accepted again at once, a dial with a 300 ms connect timeout accepted 1 s later; after every establishment the control connection is pinged, the main service called and every earlier brokered connection re-pinged; seeded delays at the hook points between knock-listener start, listener registration, knock acceptance and stream acceptance.",
+   text="Runtime monitor: sequences of 20-50 (quick) / up to 200 (thorough) brokered connections established one at a time on a multiplexed in-process gRPC pair; per-side id counters (the same number is live in both directions), accept-first and dial-first, second connections to still-open listeners, slow server factories, an establishment whose retrying dialler is accepted between its timed-out knock and gRPC's reconnect, listeners that are closed (once or twice) and whose id is accepted again at once, a dial with a 300 ms connect timeout accepted 1 s later, a listener that is closed at the moment the stream of a dial for it arrives (hook point, a host child of its own; that dial is not judged, every later pair is); after every establishment the control connection is pinged, the main service called and every earlier brokered connection re-pinged; seeded delays at the hook points between knock-listener start, listener registration, knock acceptance and stream acceptance.",
    design_ref="DESIGN.md section 3, C08",
    note="Concurrent establishment is documented as unsupported and never generated.",
    technique="runtime monitoring: id/nonce echo + health re-check oracle over sequential multiplexed establishments, schedule perturbation at hook points"),
